@@ -160,7 +160,7 @@ static void history_monitor(Report & rep)
           break;
         case 4:
           R[size_t(i)].M = Mat(R[size_t(i)].M * R[size_t(j)].M);  // before the library call (j may equal i)
-          R[size_t(i)].lib *= G(R[size_t(j)].lib);
+          R[size_t(i)].lib *= R[size_t(j)].lib;  // j may equal i: the operand then is the destination itself
           R[size_t(i)].ops = R[size_t(i)].ops + R[size_t(j)].ops + 1;
           R[size_t(i)].lscale = R[size_t(i)].lscale + R[size_t(j)].lscale;
           name = "*=";
